@@ -22,15 +22,17 @@ RULE = (
 )
 TIERS = {"quick": {"shards": 8, "n": 250, "budget_s": 220}, "thorough": {"shards": 16, "n": 2000, "budget_s": 2700}}
 FLOOR = {"quick": 80, "thorough": 4000}
-REQUIRED_LABELS = {"quick": ["bulk-strict-slice", "crud:C", "crud:R", "crud:D", "crud:CRD", "name:multi-word", "models=2", "table:titlecases-to-class", "pk:explicit", "upsert-into-existing-routes"], "thorough": []}
+REQUIRED_LABELS = {"quick": ["bulk-strict-slice", "crud:C", "crud:R", "crud:D", "crud:CRD", "name:multi-word", "models=2", "table:titlecases-to-class", "pk:explicit", "upsert-into-existing-routes", "gen_routes-via-cli"], "thorough": []}
 ASSUMPTIONS = ["the strict slice for openapi_bulk is: explicit or inferable PK among the generated columns, no ForeignKey, table name that title-cases to the class name (P16, P32, P33 cover the rest); cdd.compound.openapi.emit.openapi has no open class"]
 COLS = {"int": "Integer", "str": "String", "bool": "Boolean", "float": "Float"}
 CRUDS = ["C", "R", "D", "CR", "CD", "RD", "CRD"]
+CLI_CRUDS = ("CR", "C", "R", "D", "CD", "CRD")  # what the command line's `--crud` accepts of these
 
 
 def init_worker(ctx):
     global cdd
     cdd = hops.load()["cdd"]
+    import cdd.__main__
     import cdd.compound.openapi.emit
     import cdd.compound.openapi.gen_openapi
     import cdd.compound.openapi.gen_routes
@@ -70,7 +72,7 @@ def model(draw, used):
 def case_strategy(draw):
     used = set()
     models = [draw(model(used)) for _ in range(draw(st.integers(1, 3)))]
-    return {"models": models, "app": draw(st.sampled_from(["rest_api", "app", "api_v2"])), "prefix": draw(st.sampled_from(["/api", "", "/v1/things"]))}
+    return {"models": models, "app": draw(st.sampled_from(["rest_api", "app", "api_v2"])), "prefix": draw(st.sampled_from(["/api", "", "/v1/things"])), "cli": draw(st.booleans())}
 
 
 def strategy(ctx):
@@ -241,7 +243,12 @@ def oracle(case):
                     for crud in ([m["crud0"]] if m.get("crud0") else []) + [m["crud"]]:
                         routes, pkey = cdd.compound.openapi.gen_routes.gen_routes(app=case["app"], model_path=mp, model_name=m["cls"], crud=crud, route=route)
                         routes = list(routes)
-                        cdd.compound.openapi.gen_routes.upsert_routes(app=case["app"], routes=iter(routes), routes_path=rp, route=route, primary_key=pkey)
+                        if case.get("cli") and crud in CLI_CRUDS:
+                            # the same step through `python -m cdd gen_routes` (the key is the one gen_routes reports)
+                            cdd.__main__.main(["gen_routes", "--crud", crud, "--app-name", case["app"], "--model-path", mp, "--model-name", m["cls"], "--routes-path", rp, "--route", route])
+                            r.label("gen_routes-via-cli")
+                        else:
+                            cdd.compound.openapi.gen_routes.upsert_routes(app=case["app"], routes=iter(routes), routes_path=rp, route=route, primary_key=pkey)
             except Exception as e:
                 if known:
                     r.covered(known)
